@@ -97,6 +97,12 @@ def cases(tier, seed):
     d.update(GEOS[1])
     d.update({"int_line": True, "time": 0.25, "seed": seed, "nspecies": 2, "ghost": 2})
     out.append({"desc": d, "opts": [[True, False, True]], "source": "list", "schedules": False})
+    # species sums that have drifted from one by a few 1e-6 (flooring exists for exactly this)
+    d = dict(meshes()[2])
+    d.update(GEOS[1])
+    d.update({"layouts": {"state": [None, {"files": [[1], [0]], "nums": [0, 1]}, None], "gradp": [None] * 3, "I_R": [None] * 3},
+              "ghost": 2, "nspecies": 3, "time": 0.5, "seed": seed, "int_line": False, "ysum": "drift"})
+    out.append({"desc": d, "opts": [[True, False, True], [False, True, True], [True, True, False]], "source": "list", "schedules": False, "w": 6})
     # state / gradp / I_R files whose numbers have gaps or do not start at 0 (ranks without boxes on a level)
     d = dict(meshes()[1])
     d.update(GEOS[2])
